@@ -178,7 +178,7 @@ pub fn profile_for(prop: &str, thorough: bool) -> Profile {
             });
         }
         "C14" => {
-            p.families = &["dyadic", "dyadic", "grid", "jitter", "cosph"];
+            p.families = &["dyadic", "dyadic", "grid", "jitter", "cosph", "offcosph", "offgrid", "cluster"];
         }
         "C16" => {
             p.toroidal = true;
